@@ -255,3 +255,34 @@ PROPS["C07"]["mir"] += [ob("read_blobs_max_id_c07", "ob_storage", "read_blobs_ma
 PROPS["C15"]["mir"] += [ob("read_blobs_max_id_c15", "ob_storage", "read_blobs_max_id")]
 
 PROPS["C09"]["mir"].append(ob("go_right_continues", "ob_bptree", "go_right_continues"))
+
+PROPS["C09"]["mir"].append(ob("leaf_search", "ob_bptree", "leaf_search", kwargs={"M": 4}, thorough_kwargs={"M": 6}))
+PROPS["C01"]["mir"].append(ob("leaf_search_c01", "ob_bptree", "leaf_search", kwargs={"M": 4}, thorough_kwargs={"M": 6}))
+PROPS["C06"]["mir"] += [ob("rawrecords_tiles_file", "ob_record", "rawrecords_tiles_file", kwargs={"N": 2}, thorough_kwargs={"N": 4}),
+                        ob("init_fails_only_on_callee_error", "ob_storage", "init_fails_only_on_callee_error"),
+                        ob("validate_rejects_short_index", "ob_bptree", "validate_rejects_short_index"),
+                        ob("read_blobs_max_id_c06", "ob_storage", "read_blobs_max_id"),
+                        ob("init_ids_above_all_c06", "ob_storage", "init_ids_above_all")]
+PROPS["C03"]["mir"].append(ob("validate_rejects_short_index_c03", "ob_bptree", "validate_rejects_short_index"))
+PROPS["C06"]["assumptions"] = COMMON_K + COMMON_M + [
+    "power-loss model: a torn blob tail is any file size (records tile the file or the scan fails); a torn record is any failure of read / parse / validation; a torn index is any file shorter than its header describes",
+    "file reads: Ok implies the range is inside the file (read_exact), any read may fail",
+    "outside: real SIGKILL timing, torn CONTENT of an index tail of full length (only the hash detects it, and the hash is checked only when the index is loaded), the recovery tool (C16), end-to-end init over a real directory"]
+PROPS["C15"]["mir"].append(ob("load_in_memory_count", "ob_index", "load_in_memory_count"))
+PROPS["C04"]["mir"].append(ob("load_in_memory_count_c04", "ob_index", "load_in_memory_count"))
+
+_AHASH = [
+    H("c17_hash_pinned_len1_4_8", "bloom hash dataflow = pinned aHash 0.7.4 fallback for inputs of 1, 4, 8 bytes (folded_multiply replaced on both sides by the same multiplication-free, non-commutative stand-in)",
+      ["AHasher::new_with_keys", "<AHasher as Hasher>::write", "AHasher::large_update", "read_small", "<AHasher as Hasher>::finish", "convert::*"],
+      "all inputs of exactly 1, 4, 8 bytes, both bloom hasher keys", covers=3, timeout=300, stubs=["folded_multiply -> mix_stub"]),
+    H("c17_hash_pinned_len9_16", "same, inputs of 9 and 16 bytes", ["<AHasher as Hasher>::write", "AHasher::large_update"], "all inputs of exactly 9, 16 bytes", covers=2, timeout=300, stubs=["folded_multiply -> mix_stub"]),
+    H("c17_hash_pinned_len17", "same, 17 bytes (tail block first, then the front block)", ["<AHasher as Hasher>::write"], "all inputs of exactly 17 bytes", covers=1, timeout=300, stubs=["folded_multiply -> mix_stub"]),
+    H("c17_hash_pinned_len33", "same, 33 bytes (tail + two full blocks)", ["<AHasher as Hasher>::write"], "all inputs of exactly 33 bytes", covers=1, timeout=300, stubs=["folded_multiply -> mix_stub"]),
+    H("c17_folded_multiply_def", "folded_multiply(a, b) = low64(a*b) xor high64(a*b) of the full 128-bit product", ["operations::folded_multiply"], "all a, b: u64", covers=0, timeout=600),
+    H("c17_mix_stub_discriminates", "vacuity guard: the stand-in for folded_multiply is not commutative and depends on both operands", ["(harness-side) mix_stub"], "witnesses only", covers=3, timeout=60),
+]
+PROPS["C17"]["kani"] += _AHASH
+PROPS["C10"]["kani"] += _AHASH
+PROPS["C09"]["mir"].append(ob("leaf_packing", "ob_tree", "leaf_packing", kwargs={"N": 3}))  # N=4: 16 min, solver unknown (nonlinear)
+PROPS["C14"]["mir"].append(ob("close_active_order_c14", "ob_storage", "close_active_order"))
+PROPS["C15"]["mir"].append(ob("validate_rejects_short_index_c15", "ob_bptree", "validate_rejects_short_index"))
